@@ -9,6 +9,8 @@ from geneticengine.solutions.tree import TreeNode
 from geneticengine.grammar.utils import get_arguments
 from geneticengine.grammar.utils import is_abstract
 from geneticengine.grammar.utils import is_terminal
+from geneticengine.grammar.utils import get_generic_parameter
+from geneticengine.grammar.utils import is_annotated
 import dataclasses
 
 
@@ -65,7 +67,11 @@ def relabel_nodes(
                 g,
                 isinstance(c, (list, tuple)),
             )
-            abs_adjust = 0 if not is_abstract(t) or not g.expansion_depthing else g.abstract_dist_to_t[t][type(c)]
+            # (a field may declare its abstract type inside Annotated[...]: the class itself decides and keys the table)
+            declared = get_generic_parameter(t) if is_annotated(t) else t
+            abs_adjust = (
+                0 if not g.expansion_depthing or not is_abstract(declared) else g.abstract_dist_to_t[declared][type(c)]
+            )
             if isinstance(c, (list, tuple)) and g.expansion_depthing:
                 abs_adjust = 1
             list_adjust = 0 if isinstance(c, (list, tuple)) else 1
